@@ -96,6 +96,7 @@ impl MultiPeerBackend for RepSocketBackend {
             let _ = monitor.try_send(SocketEvent::Disconnected(peer_id.clone()));
         }
         self.peers.remove_async(peer_id).await;
+        self.fair_queue_inner.lock().remove(peer_id);
     }
 }
 
